@@ -5,11 +5,16 @@ from collections import defaultdict
 
 LETTERS = ['a', 'b', 'c']
 NAME_SCHEMES = {
+    's6': lambda i: 's%d' % i,
     's': lambda i: 's%d' % i,
     'q': lambda i: 'q%d' % i,
     'r': lambda i: 'r%d' % i,
     'x': lambda i: ['start', 'accept', 'trap1', 'P1', 'M1', 'q_accept', 'q_initial'][i],
     'p': lambda i: ['q_accept', 'q_initial', 'M1', 'q_accept1'][i],
+    't': lambda i: ['q1', 'q10', 'q', 'q100', 'q11', 'q101'][i],
+    'd': lambda i: ['1', '10', '100', '0', '11', '101'][i],
+    'f': lambda i: ['q9', 'q10', 'trap9', 'trap10', 'q1', 'trap1'][i],    # numbered names around a decimal carry (fresh-name generators)          # digit names: a name + a digit letter is another name   # names that are substrings of each other
+    'k': lambda i: ['accept', 'reject', 'blank', 'tape_symbols', 'stack_symbols'][i],   # keywords of OTHER formats: legal NFA/PDA state names
     'z': lambda i: ['r', 'a', 'b', 'f', 'c', 'd'][i],   # single letters (C15 back-pointer order)
 }
 
@@ -29,6 +34,14 @@ def shard(it, i, n):
     """Every n-th element of an enumeration of (idx, spec) pairs."""
     for idx, spec in it:
         if idx % n == i:
+            yield idx, spec
+
+
+def shard_blocks(it, i, n, block):
+    """Sharding by blocks of `block` consecutive instances: the variants of one transition structure (all q0, all F)
+    stay in one worker and are executed back to back."""
+    for idx, spec in it:
+        if (idx // block) % n == i:
             yield idx, spec
 
 
@@ -71,10 +84,15 @@ def dfa_parts(spec, scheme='s', letters='ab'):
     return Q, Sg, delta, Q[q0], F
 
 
+def fresh(x):
+    """An equal but distinct str object (parsers produce such strings; code must compare names with ==, not `is`)."""
+    return ''.join(list(x)) if len(x) > 1 else x
+
+
 def build_dfa(spec, scheme='s', letters='ab'):
     from gambatools.dfa import DFA
     Q, Sg, delta, q0, F = dfa_parts(spec, scheme, letters)
-    return DFA(set(Q), set(Sg), dict(delta), q0, set(F))
+    return DFA(set(fresh(q) for q in Q), set(Sg), {(fresh(p), a): fresh(q) for (p, a), q in delta.items()}, fresh(q0), set(fresh(q) for q in F))
 
 
 # ---------------------------------------------------------------- NFA(n,k,t)
@@ -112,20 +130,36 @@ def nfa_chains(n):
                     idx += 1
 
 
-def nfa_parts(spec, scheme='s', eps=''):
+def nfa_rotations(n):
+    """Thin deep family: a-edges form a cycle over n states, the initial state has epsilon edges to a subset S;
+    the subsets of the determinisation are the n rotations of closure(S) - many distinct large subsets."""
+    k = 1
+    cyc = tuple((i, 0, (i + 1) % n) for i in range(n))
+    idx = 0
+    for bits in range(2 ** (n - 1)):
+        S = [i + 1 for i in range(n - 1) if bits >> i & 1]
+        if len(S) < n - 3:
+            continue
+        eps = tuple((0, k, q) for q in S)
+        for f in range(n):
+            yield idx, ('nfa', n, k, tuple(sorted(cyc + eps)), 0, 1 << f)
+            idx += 1
+
+
+def nfa_parts(spec, scheme='s', eps='', letters='ab'):
     _, n, k, tr, q0, fb = spec
     Q = names(scheme, n)
-    Sg = LETTERS[:k]
+    Sg = ALPHABETS[letters][:k]
     T = [(Q[p], (Sg[x] if x < k else eps), Q[q]) for (p, x, q) in tr]
     F = [Q[j] for j in range(n) if fb >> j & 1]
     return Q, Sg, T, Q[q0], F
 
 
-def build_nfa(spec, scheme='s', eps='', enc='sparse'):
+def build_nfa(spec, scheme='s', eps='', enc='sparse', letters='ab'):
     """enc: 'sparse' defaultdict(set) with non-empty entries only; 'empties' the same plus explicit empty
     entries; 'total' a plain dict defined on all of Q x (Sigma + eps)."""
     from gambatools.nfa import NFA
-    Q, Sg, T, q0, F = nfa_parts(spec, scheme, eps)
+    Q, Sg, T, q0, F = nfa_parts(spec, scheme, eps, letters)
     if enc == 'total':
         delta = {(q, a): set() for q in Q for a in Sg + [eps]}
     else:
@@ -135,8 +169,8 @@ def build_nfa(spec, scheme='s', eps='', enc='sparse'):
                 for a in Sg + [eps]:
                     delta[q, a] = set()
     for (p, a, q) in T:
-        delta[p, a].add(q)
-    return NFA(set(Q), set(Sg), delta, q0, set(F), eps)
+        delta[p, a].add(fresh(q))
+    return NFA(set(fresh(q) for q in Q), set(Sg), delta, fresh(q0), set(fresh(q) for q in F), eps)
 
 
 # ---------------------------------------------------------------- one live object rewritten in place
